@@ -420,4 +420,142 @@ theorem newest_version_selected_mem_history (ops : List SOp) (name : Name) :
           obtain ⟨rest, hr⟩ := (hentry e).mp he
           rw [hno (name ++ rest) (pfxOf_append name rest)] at hr; cases hr
 
+/-- nothing stored under a prefix ⇒ the cursor scan is empty (so the scan-limit guard holds trivially) -/
+theorem boltScan_nil_of_noneUnder (ops : List SOp) (hw : ∀ op ∈ ops, op.WF) (name : Name) (hn : NameWF name)
+    (hno : NoneUnder (contents ops) name) : boltScan (boltRun ops) (encKey name) = [] := by
+  have hrel := boltRel_run ops hw
+  apply List.eq_nil_iff_forall_not_mem.mpr
+  intro e he
+  obtain ⟨hes, hp⟩ := (boltScan_mem_iff _ hrel.sorted (encKey name) e).mp he
+  obtain ⟨nm, h1, h2⟩ := hrel.sound e hes
+  have hwn := hrel.support nm (by simp [h2])
+  rw [h1] at hp
+  rw [hno nm ((encKey_prefix_iff name nm hn hwn).mp hp)] at h2
+  cases h2
+
+/-- BOLT store model after any history (names within Go's value ranges), in terms of the abstract
+    content: exact Get = content; prefix Get — under the guard "at most 999 keys under the prefix" (the
+    code's scan limit, known finding F-15d) — answers with a packet stored under the prefix whose version
+    is maximal among ALL names of the content under the prefix, and with nothing iff there is none.
+    The unguarded statement is false for the code (replays corpus/C15/bolt-scan-limit*.ops). -/
+theorem newest_version_selected_bolt_history_partial (ops : List SOp) (hw : ∀ op ∈ ops, op.WF) (name : Name)
+    (hn : NameWF name) :
+    boltGet (boltRun ops) name false = (contents ops name).map (·.2) ∧
+    ((boltScan (boltRun ops) (encKey name)).length ≤ boltScanLimit →
+      (∀ p, boltGet (boltRun ops) name true = some p → ∃ v, NewestUnder (contents ops) name v p) ∧
+      (boltGet (boltRun ops) name true = none ↔ NoneUnder (contents ops) name)) := by
+  have hrel := boltRel_run ops hw
+  refine ⟨boltGet_exact_of_rel _ _ name hn hrel, fun hguard => ?_⟩
+  obtain ⟨hnone, hsome⟩ := newest_version_selected_bolt_partial (boltRun ops) hrel.sorted name hguard
+  -- stored keys under the encoded prefix = names of the content under the prefix
+  have hkey : ∀ e ∈ boltRun ops, ∀ nm, e.key = encKey nm → contents ops nm = some (e.ver, e.pkt) →
+      ((encKey name).isPrefixOf e.key = true ↔ pfxOf name nm = true) := by
+    intro e _ nm h1 h2
+    rw [h1]; exact encKey_prefix_iff name nm hn (hrel.support nm (by simp [h2]))
+  by_cases hex : ∃ e ∈ boltRun ops, (encKey name).isPrefixOf e.key = true
+  · obtain ⟨e, he, hp, hget, hmax⟩ := hsome hex
+    obtain ⟨nm, h1, h2⟩ := hrel.sound e he
+    have hnew : NewestUnder (contents ops) name e.ver e.pkt := by
+      refine ⟨nm, (hkey e he nm h1 h2).mp hp, h2, ?_⟩
+      intro nm' v' p' hnm' hc'
+      obtain ⟨e', he', k1, k2, k3⟩ := hrel.complete nm' v' p' hc'
+      have := hmax e' he' ((hkey e' he' nm' k1 (by rw [k2, k3]; exact hc')).mpr hnm')
+      omega
+    constructor
+    · intro p hp'
+      rw [hget] at hp'; cases hp'
+      exact ⟨e.ver, hnew⟩
+    · rw [hget]
+      constructor
+      · intro h; cases h
+      · intro hno
+        obtain ⟨nm0, hn0, hc0, _⟩ := hnew
+        rw [hno nm0 hn0] at hc0; cases hc0
+  · have hall : ∀ e ∈ boltRun ops, (encKey name).isPrefixOf e.key = false := by
+      intro e he
+      cases hq : (encKey name).isPrefixOf e.key with
+      | false => rfl
+      | true => exact absurd ⟨e, he, hq⟩ hex
+    have hget := hnone hall
+    constructor
+    · intro p hp'; rw [hget] at hp'; cases hp'
+    · simp only [hget, true_iff]
+      intro nm hnm
+      cases hc : contents ops nm with
+      | none => rfl
+      | some vp =>
+        obtain ⟨e, he, k1, k2, k3⟩ := hrel.complete nm vp.1 vp.2 hc
+        have := (hkey e he nm k1 (by rw [k2, k3]; exact hc)).mpr hnm
+        rw [hall e he] at this; cases this
+
+example : (boltScan (boltRun exOps) (encKey [⟨8, [1]⟩])).length ≤ boltScanLimit := by decide
+
+/-- Removed packets are no longer served, over every history and for both stores: right after
+    `Remove(name, prefix)` no exact or prefix Get at or below `name` is answered; right after
+    `Remove(name, exact)` the exact Get of `name` is not answered.  (More generally, by the two
+    `…_history` theorems, a Get is answered only from `contents`, which a Remove clears until the next Put.) -/
+theorem removed_not_served_history (ops : List SOp) (hw : ∀ op ∈ ops, op.WF) (name rest : Name)
+    (hn : NameWF (name ++ rest)) :
+    (∀ pfx, memGet (memRun (ops ++ [.remove name true])) (name ++ rest) pfx = none ∧
+            boltGet (boltRun (ops ++ [.remove name true])) (name ++ rest) pfx = none) ∧
+    (memGet (memRun (ops ++ [.remove name false])) name false = none ∧
+     boltGet (boltRun (ops ++ [.remove name false])) name false = none) := by
+  have hnw := nameWF_append.mp hn
+  have hw1 : ∀ op ∈ ops ++ [SOp.remove name true], op.WF := by
+    intro op hop
+    rcases List.mem_append.mp hop with h | h
+    · exact hw op h
+    · simp at h; subst h; exact hnw.1
+  have hw2 : ∀ op ∈ ops ++ [SOp.remove name false], op.WF := by
+    intro op hop
+    rcases List.mem_append.mp hop with h | h
+    · exact hw op h
+    · simp at h; subst h; exact hnw.1
+  constructor
+  · have hno : NoneUnder (contents (ops ++ [.remove name true])) (name ++ rest) := by
+      intro nm hnm
+      have : pfxOf name nm = true := pfxOf_trans name (name ++ rest) nm (pfxOf_append name rest) hnm
+      simp [contents_snoc, Content.apply, Content.remove, this]
+    have h0 : contents (ops ++ [.remove name true]) (name ++ rest) = none := hno _ (pfxOf_refl _)
+    have hm := newest_version_selected_mem_history (ops ++ [.remove name true]) (name ++ rest)
+    have hb := newest_version_selected_bolt_history_partial (ops ++ [.remove name true]) hw1 (name ++ rest) hn
+    have hscan := boltScan_nil_of_noneUnder _ hw1 (name ++ rest) hn hno
+    intro pfx
+    cases pfx with
+    | false => exact ⟨by rw [hm.1, h0]; rfl, by rw [hb.1, h0]; rfl⟩
+    | true => exact ⟨((hm.2.2 h0).2).mpr hno, ((hb.2 (by rw [hscan]; simp)).2).mpr hno⟩
+  · have h0 : contents (ops ++ [.remove name false]) name = none := by
+      simp [contents_snoc, Content.apply, Content.remove]
+    have hm := newest_version_selected_mem_history (ops ++ [.remove name false]) name
+    have hb := newest_version_selected_bolt_history_partial (ops ++ [.remove name false]) hw2 name hnw.1
+    exact ⟨by rw [hm.1, h0]; rfl, by rw [hb.1, h0]; rfl⟩
+
+/-- Both stores agree after the same history: exact Gets are equal; for a prefix Get on a name that
+    holds no packet itself (the documented difference: the memory store prefers the exact packet, bolt
+    the newest below it) and within bolt's scan limit, either both answer nothing or both answer with
+    packets of the SAME, maximal version stored under the prefix. -/
+theorem stores_agree (ops : List SOp) (hw : ∀ op ∈ ops, op.WF) (name : Name) (hn : NameWF name) :
+    memGet (memRun ops) name false = boltGet (boltRun ops) name false ∧
+    (contents ops name = none → (boltScan (boltRun ops) (encKey name)).length ≤ boltScanLimit →
+      (memGet (memRun ops) name true = none ↔ boltGet (boltRun ops) name true = none) ∧
+      ∀ p q, memGet (memRun ops) name true = some p → boltGet (boltRun ops) name true = some q →
+        ∃ v, NewestUnder (contents ops) name v p ∧ NewestUnder (contents ops) name v q) := by
+  have hm := newest_version_selected_mem_history ops name
+  have hb := newest_version_selected_bolt_history_partial ops hw name hn
+  refine ⟨by rw [hm.1, hb.1], fun h0 hguard => ?_⟩
+  obtain ⟨hm1, hm2⟩ := hm.2.2 h0
+  obtain ⟨hb1, hb2⟩ := hb.2 hguard
+  refine ⟨by rw [hm2, hb2], ?_⟩
+  intro p q hp hq
+  obtain ⟨v1, h1⟩ := hm1 p hp
+  obtain ⟨v2, h2⟩ := hb1 q hq
+  have : v1 = v2 := by
+    obtain ⟨n1, a1, b1, c1⟩ := h1
+    obtain ⟨n2, a2, b2, c2⟩ := h2
+    have := c1 n2 v2 q a2 b2
+    have := c2 n1 v1 p a1 b1
+    omega
+  subst this
+  exact ⟨v1, h1, h2⟩
+
 end Ndn.C15
